@@ -97,7 +97,7 @@ Inductive prim :=
 | PWhile | PLet | PLetStar | PProgn | PDefun | PLambda | PDefmacro
 | PFuncall | PAnd | POr | PDeclare
 (* host-registered by the harness *)
-| PTick | PProbe | PHostAdd | PHostBox | PHostOpt | PHostConv.
+| PTick | PProbe | PHostAdd | PHostBox | PHostOpt | PHostConv | PHostId.
 
 Inductive pmac :=
 | MWhen | MUnless | MIfLetStar | MIfLet | MWhenLet | MWhileLet
